@@ -73,6 +73,11 @@ def run(P, rep, tier):
     from .tocmodel import r_schema_register as _rsr
 
     rep.attempt(_rsr, P, rep, ctx, "C07.R10")
+    # an attached object is found again under its node whatever the node is called: the '=' of `<ep-name>=<uuid>` is looked for
+    # in the last path segment only (C06.R9)
+    from . import c06 as _c06
+
+    rep.attempt(_c06.r9_separator_in_last_segment, P, rep, ctx)
     rep.floor("C07.R1", 5)
     rep.floor("C07.R2", 7)
     rep.floor("C07.R3", 3)
